@@ -191,9 +191,6 @@ It is false: a question name may contain a compression pointer, which at offset 
 into the header, and the response's header differs from the request's (QR is set, flags, counts).
 It holds under the decidable hypothesis that the question name is in plain wire form. -/
 
-/-- the name bytes of the question are the uncompressed wire form of the decoded name -/
-def plainQuestion (q : Question) : Bool := q.raw.take (q.raw.length - 4) == Name.wire q.name
-
 theorem echo_decodes_same_partial (q : Question) (hb : Bounded q.name) (hf : q.name.fqdn = true)
     (hp : plainQuestion q = true) (hdr' rest : Bytes) (h12 : hdr'.length = 12) :
     readName (hdr' ++ q.raw ++ rest) 12 = .ok (q.name, 12 + (q.raw.length - 4)) := by
@@ -239,6 +236,12 @@ theorem echo_counterexample :
   · simp [readQueries, readU16, readName, readLabels, ceRequest, extendName, Name.new, encodedLen,
       dataLen, MAX_LENGTH, Name.len]
   · simp [readName, readLabels, ceResponseHeader]
+
+/-- the counter-example is in the class the finding is filed under -/
+theorem echo_counterexample_in_class : compressedQuestionEcho ceRequest = true := by
+  simp [compressedQuestionEcho, readHeader, ceRequest, knownOpcode, plainQuestion, readQueries,
+    readU16, readName, readLabels, extendName, Name.new, encodedLen, dataLen, MAX_LENGTH, Name.len,
+    Name.wire, emitLabel]
 
 -- non-vacuity of the partial theorem: `www.com. A IN` in plain wire form
 private def exPlain : Question :=
